@@ -176,6 +176,38 @@ func runHistory(h history) pbt.Result {
 			if r := admit(where); r != nil {
 				return *r
 			}
+		case "race":
+			// the front waiter's context is cancelled at the same moment a Release makes room for it: it may return
+			// either way, but the semaphore must end in the state that corresponds to what it returned, and whoever
+			// fits behind it must be woken
+			if len(queue) == 0 || cur == 0 {
+				continue
+			}
+			w := queue[0]
+			need := w.n - (size - cur)
+			if need <= 0 || need > cur {
+				continue
+			}
+			start := make(chan struct{})
+			var wg sync.WaitGroup
+			wg.Add(2)
+			go func() { defer wg.Done(); <-start; w.cancel() }()
+			go func() { defer wg.Done(); <-start; s.Release(need) }()
+			close(start)
+			wg.Wait()
+			cur -= need
+			err, ok := waitDone(w.done, lostWakeupTimeout)
+			if !ok {
+				return pbt.Fail("%s: the front waiter #%d, cancelled while a Release made room for it, did not return", where, w.id)
+			}
+			if err == nil {
+				cur += w.n
+			}
+			queue = queue[1:]
+			cancelledFront = true
+			if r := admit(where); r != nil {
+				return *r
+			}
 		case "cancel":
 			if len(queue) == 0 {
 				continue
@@ -235,7 +267,7 @@ func genHistory(rt *rapid.T) history {
 	h := history{Size: rapid.Int64Range(0, 6).Draw(rt, "size")}
 	n := rapid.IntRange(1, 30).Draw(rt, "n")
 	for i := 0; i < n; i++ {
-		o := op{Op: rapid.SampledFrom([]string{"acquire", "acquire", "acquire", "acquire", "acquire_cancelled", "try", "release", "release", "release", "force", "setsize", "cancel"}).Draw(rt, "op")}
+		o := op{Op: rapid.SampledFrom([]string{"acquire", "acquire", "acquire", "acquire", "acquire_cancelled", "try", "release", "release", "release", "force", "setsize", "cancel", "race", "race"}).Draw(rt, "op")}
 		switch o.Op {
 		case "setsize":
 			o.N = rapid.Int64Range(0, 8).Draw(rt, "size")
